@@ -99,25 +99,35 @@ STATEMENTS = {
 }
 
 _FULL = list(STATEMENTS)
-_MID = [k for k in _FULL if k not in ("t=t+1", "k=k+1", "c1=max", "a1+=b1",
-                                       "Lq", "k=i", "getv(a,u)")]
+_T3 = ["t=2", "u=t", "t=a2", "a1=0", "a2=a1", "b1=a2", "ak=t", "a:=0", "a1n=b",
+       "La=0", "Lb=a", "Lfull", "Ltmp", "Lred", "if(t)u", "if(n)t|u", "if(k)a1",
+       "inc(t)"]
 _Q12 = ["t=2", "u=t", "t=a2", "a1=0", "b1=a2", "ak=t", "a:=0", "a1n=b", "La=0",
-        "Lb=a", "Lfull", "Ltmp", "Lred", "Lifc", "Lifelse", "if(t)u", "if(n)t|u", "if(k)a1",
-        "inc(t)", "fill(a)"]
-_Q3 = ["u=t", "t=a2", "a1=0", "b1=a2", "a1n=b", "La=0", "Lb=a", "Ltmp",
-       "if(n)t|u", "inc(t)"]
+        "Lb=a", "Lfull", "Ltmp", "Lred", "Lifc", "Lifelse", "if(t)u", "if(n)t|u",
+        "if(k)a1", "inc(t)", "fill(a)"]
+_Q3 = ["u=t", "t=a2", "a1=0", "b1=a2", "La=0", "Ltmp", "if(n)t|u"]
 
 #: per tier: program length -> statement alphabet (quick is a subset of
 #: thorough for every length)
 ALPHABETS = {
-    "quick": {1: _Q12, 2: _Q12, 3: _Q3,
-              4: ["a1=0", "t=a2", "La=0", "if(t)u"]},
-    "thorough": {1: _FULL, 2: _FULL, 3: _MID,
-                 4: ["a1=0", "t=a2", "La=0", "if(t)u", "Lb=a", "if(n)t|u",
-                     "ak=t"]},
+    "quick": {1: _Q12, 2: _Q12, 3: _Q3, 4: ["a1=0", "t=a2", "La=0"]},
+    "thorough": {1: _FULL, 2: _FULL, 3: _T3,
+                 4: ["a1=0", "t=a2", "La=0", "if(t)u", "Lb=a", "if(n)t|u"]},
 }
-for _len in (1, 2, 3, 4):
-    assert set(ALPHABETS["quick"][_len]) <= set(ALPHABETS["thorough"][_len])
+#: C13 runs three compute placements per program: smaller alphabets for the
+#: longer programs
+_C13_T3 = ["t=2", "t=a2", "a1=0", "b1=a2", "ak=t", "a:=0", "a1n=b", "b:=a",
+           "La=0", "Lb=a", "Lfull", "Lrec", "Ltmp", "Lifc", "if(k)a1", "fill(a)"]
+_C13_Q3 = ["t=a2", "a1=0", "a1n=b", "La=0", "Lb=a", "Ltmp", "Lrec"]
+ALPHABETS_C13 = {
+    "quick": {1: _Q12, 2: _Q12, 3: _C13_Q3},
+    "thorough": {1: _FULL, 2: _FULL, 3: _C13_T3,
+                 4: ["a1=0", "t=a2", "La=0", "Lb=a"]},
+}
+for _tab in (ALPHABETS, ALPHABETS_C13):
+    for _len, _alpha in _tab["quick"].items():
+        assert set(_alpha) <= set(_tab["thorough"][_len])
+        assert set(_tab["thorough"][_len]) <= set(STATEMENTS)
 
 
 def indent(text, pre="  "):
@@ -129,10 +139,11 @@ def source(keys):
     return HEADER + body + FOOTER
 
 
-def programs(tier):
+def programs(tier, table=None):
     """Yields tuples of statement keys, shortest first, deterministic."""
-    for length in (1, 2, 3, 4):
-        for combo in itertools.product(ALPHABETS[tier][length], repeat=length):
+    table = table or ALPHABETS
+    for length in sorted(table[tier]):
+        for combo in itertools.product(table[tier][length], repeat=length):
             yield combo
 
 
